@@ -155,21 +155,35 @@ class _Unit:
     def emissions(self, blocks=None):
         """[(bb, kind, tree)] with kind in raw | doubled | escaped | other"""
         b, o = self.body, self.o
+        if blocks is not None:
+            # origin trees along these blocks only: a result that is returned through one shared `_0 = move tmp` (e.g. after a per-character
+            # helper was inlined) resolves to the definition on this path instead of a phi over all arms
+            o = Origins(b, only_blocks=blocks)
         out = []
         if self.kind == "closure":
             for d in b.defs.get(0, []):
                 if blocks is not None and d[0] not in blocks:
                     continue
-                tree = o._def(d, 0, ())
-                src = peel(tree.kids[0]) if tree.kind == "call" and tree.kids else tree
-                if tree.kind == "call" and method_name(tree.a) == "ToString::to_string" and src.kind == "const" and src.a.as_str() == "\\\\":
-                    out.append((d[0], "doubled", tree))
-                elif tree.kind == "call" and method_name(tree.a) == "ToString::to_string" and src.kind == "arg" and src.a == 2:
-                    out.append((d[0], "raw", tree))
-                elif tree.kind == "call" and tree.a.endswith("escaped_printable_ascii"):
-                    out.append((d[0], "escaped", tree))
-                else:
-                    out.append((d[0], "other", tree))
+                top = o._def(d, 0, ())
+                # a result merged from several arms (phi) is split into its arms, each located at the block that computes it
+                arms = [(d[0], top)]
+                if peel(top).kind == "phi":
+                    arms = []
+                    for k_ in peel(top).kids:
+                        at_ = next((n.at[0] for n in k_.walk() if n.at is not None), d[0])
+                        arms.append((at_, k_))
+                for blk_, tree in arms:
+                    tree = peel(tree) if peel(tree).kind == "call" else tree
+                    src = peel(tree.kids[0]) if tree.kind == "call" and tree.kids else tree
+                    is_char = src.kind == "arg" and src.a == 2
+                    if tree.kind == "call" and method_name(tree.a) == "ToString::to_string" and src.kind == "const" and src.a.as_str() == "\\\\":
+                        out.append((blk_, "doubled", tree))
+                    elif tree.kind == "call" and method_name(tree.a) == "ToString::to_string" and is_char:
+                        out.append((blk_, "raw", tree))
+                    elif tree.kind == "call" and tree.a.endswith("escaped_printable_ascii"):
+                        out.append((blk_, "escaped", tree))
+                    else:
+                        out.append((blk_, "other", tree))
             return out
         from .c16 import mut_calls
         if self.result is None:
